@@ -1,7 +1,7 @@
 From Coq Require Import ZArith Bool Lia Reals Lra.
 From Flocq Require Import Core Operations BinarySingleNaN.
 From Flocq Require Binary Bits.
-From Tetl Require Import Lib.Base C16.Model C16.Spec.
+From Tetl Require Import Lib.Base C16.Model C16.Spec C16.ProofsBasic.
 Local Open Scope Z_scope.
 
 Section Codec.
@@ -495,6 +495,7 @@ pose proof M_ge2 as HM. pose proof E_ge as HE. pose proof W_eq as HW.
 assert (HEM : 0 < 2 ^ ew * 2 ^ mw) by (apply Z.mul_pos_pos; lia).
 assert (Hi : EN (B754_infinity false) = (2 ^ ew - 1) * 2 ^ mw)
   by (cbn [enc]; rewrite join_eq; ring).
+assert (HP : 2 * 2 ^ mw <= 2 ^ ew * 2 ^ mw) by nia.
 destruct x as [s|[|]| |[|] mx ex Bx]; intros Fx; try discriminate Fx; cbn [Bsign].
 - rewrite enc_sign by reflexivity. cbn [Bopp negb].
   unfold wrapu. rewrite Z.mod_small by lia.
@@ -514,4 +515,81 @@ destruct x as [s|[|]| |[|] mx ex Bx]; intros Fx; try discriminate Fx; cbn [Bsign
   unfold wrapu. rewrite Z.mod_small by lia. apply dec_pred_fin.
 Qed.
 
+
+(** * nextafter: the integer step on the bit pattern is IEEE nextUp / nextDown towards the target *)
+Lemma Bcompare_not_nan (x y : fl) : is_nan x = false -> is_nan y = false -> Bcompare x y <> None.
+Proof.
+intros Nx Ny Hc.
+destruct x, y; try discriminate; cbn in Hc; try discriminate;
+  repeat match goal with s : bool |- _ => destruct s end; discriminate.
+Qed.
+
+Lemma eq0_zero s : Beqb (B754_zero s : fl) (B754_zero false : fl) = true.
+Proof. destruct s; reflexivity. Qed.
+Lemma eq0_inf s : Beqb (B754_infinity s : fl) (B754_zero false : fl) = false.
+Proof. destruct s; reflexivity. Qed.
+Lemma eq0_fin s m e B : Beqb (B754_finite s m e B : fl) (B754_zero false : fl) = false.
+Proof. destruct s; reflexivity. Qed.
+Lemma gt0_inf s : Bltb (B754_zero false : fl) (B754_infinity s : fl) = negb s.
+Proof. destruct s; reflexivity. Qed.
+Lemma gt0_fin s m e B : Bltb (B754_zero false : fl) (B754_finite s m e B : fl) = negb s.
+Proof. destruct s; reflexivity. Qed.
+Lemma lt0_of_cmp s (y : fl) c : is_nan y = false -> Bcompare (B754_zero s : fl) y = Some c ->
+  Bltb y (B754_zero false : fl) = match c with Gt => true | _ => false end.
+Proof.
+intros Ny Hc.
+destruct y as [sy|sy| |sy my ey By]; try discriminate Ny; destruct sy; cbn in Hc;
+  inversion Hc; subst; reflexivity.
+Qed.
+Lemma inf_cmp s (y : fl) c : is_nan y = false -> Bcompare (B754_infinity s : fl) y = Some c ->
+  c = Eq \/ c = (if s then Lt else Gt).
+Proof.
+intros Ny Hc.
+destruct y as [sy|sy| |sy my ey By]; try discriminate Ny; destruct s; try destruct sy; cbn in Hc;
+  inversion Hc; subst; auto.
+Qed.
+
+Theorem e_nextafter_exact (x y : fl) :
+  e_nextafter prec emax p pe (mw + ew + 1) EN D x y = spec_nextafter prec emax p pe x y.
+Proof.
+unfold e_nextafter, spec_nextafter.
+rewrite !fne_self.
+destruct (is_nan x) eqn:Nx.
+{ destruct x; try discriminate. cbn [orb]. unfold fadd. rewrite Bplus_nan_l, Bcompare_nan_l. reflexivity. }
+destruct (is_nan y) eqn:Ny.
+{ destruct y; try discriminate. cbn [orb]. unfold fadd. rewrite Bplus_nan_r, Bcompare_nan_r. reflexivity. }
+cbn [orb]. unfold feq, flt, fgt, fneg. rewrite (f_zero_eq prec emax p pe).
+rewrite (Beqb_Bcompare _ _ x y), (Bltb_Bcompare _ _ x y).
+pose proof (Bcompare_not_nan x y Nx Ny) as Hnn.
+destruct x as [sx|sx| |sx mx ex Bx]; try discriminate Nx.
+- (* from is a zero *)
+  rewrite eq0_zero.
+  destruct (Bcompare (B754_zero sx) y) as [[| |]|] eqn:Hc; [reflexivity| | |now elim Hnn];
+    rewrite (lt0_of_cmp _ _ _ Ny Hc), dec_one.
+  + reflexivity.
+  + destruct sx; reflexivity.
+- (* from is an infinity *)
+  rewrite eq0_inf, gt0_inf.
+  destruct (Bcompare (B754_infinity sx) y) as [[| |]|] eqn:Hc; [reflexivity| | |now elim Hnn];
+    destruct (inf_cmp _ _ _ Ny Hc) as [Hd|Hd]; try discriminate Hd;
+    destruct sx; try discriminate Hd; cbn [negb Bool.eqb];
+    rewrite step_down by reflexivity; reflexivity.
+- (* from is finite and not zero *)
+  rewrite eq0_fin, gt0_fin.
+  destruct (Bcompare (B754_finite sx mx ex Bx) y) as [[| |]|] eqn:Hc; [reflexivity| | |now elim Hnn].
+  + destruct sx; cbn [negb Bool.eqb].
+    * rewrite step_down by reflexivity. reflexivity.
+    * rewrite step_up by reflexivity. reflexivity.
+  + destruct sx; cbn [negb Bool.eqb].
+    * rewrite step_up by reflexivity. reflexivity.
+    * rewrite step_down by reflexivity. reflexivity.
+Qed.
+
 End Codec.
+
+(** * the two interchange formats *)
+Theorem nextafter32_exact : forall x y : b32, nextafter32 x y = spec_nextafter 24 128 p32 pe32 x y.
+Proof. exact (e_nextafter_exact 23 8 eq_refl eq_refl eq_refl p32 pe32). Qed.
+
+Theorem nextafter64_exact : forall x y : b64, nextafter64 x y = spec_nextafter 53 1024 p64 pe64 x y.
+Proof. exact (e_nextafter_exact 52 11 eq_refl eq_refl eq_refl p64 pe64). Qed.
